@@ -183,6 +183,7 @@ def lean_stage(ctx, cfg):
     modules = cfg.get("modules", [])
     with Lock("lean"):
         key = lean_sources_hash()
+        key += "-" + hashlib.sha256("\n".join(modules + theorems).encode()).hexdigest()[:12]
         cache = os.path.join(BUILD, "audit-%s-%s.json" % (ctx.prop, key))
         if os.path.exists(cache) and os.path.exists(os.path.join(LEAN, ".lake/build/bin/gnmi_model")):
             with open(cache) as fh:
